@@ -312,7 +312,11 @@ func (w *World) Reqs() []*Req {
 
 // Request starts a request and consumers for both returned channels.
 func (w *World) Request(n *GSNode, to peer.ID, root cid.Cid, sel datamodel.Node, exts ...graphsync.ExtensionData) *Req {
-	id := graphsync.NewRequestID()
+	return w.RequestWithID(graphsync.NewRequestID(), n, to, root, sel, exts...)
+}
+
+// RequestWithID is Request with a caller-chosen request id.
+func (w *World) RequestWithID(id graphsync.RequestID, n *GSNode, to peer.ID, root cid.Cid, sel datamodel.Node, exts ...graphsync.ExtensionData) *Req {
 	ctx, cancel := context.WithCancel(context.WithValue(w.Ctx, graphsync.RequestIDContextKey{}, id))
 	r := &Req{ID: id, Node: n, To: to, Root: root, Sel: sel, cancel: cancel, done: make(chan struct{})}
 	r.Called = w.Log.Add("api-request", n.Name, "id=%s to=%s root=%s", id, w.Fab.NameOf(to), root)
